@@ -12,7 +12,7 @@ func cmdXlate(args []string) int {
 	if len(args) != 2 {
 		usage()
 	}
-	rep, err := xlate.TranslateDir(args[0], args[1], true)
+	rep, err := xlate.TranslateDir(args[0], args[1], true, os.Getenv("VERIF_LANG"))
 	if err != nil {
 		fmt.Fprintln(os.Stderr, "xlate:", err)
 		return 2
